@@ -294,6 +294,10 @@ def run_case(ctx, case_seed, i):
       if o.kind == 'diagnostic' and any(m in (o.message or '') for m, _ in semantic.REJECTION_KINDS):
         ctx.count('discarded')
         continue
+      if o.kind == 'diagnostic' and 'too deep' in (o.message or '') and 'recursion limit' in (o.message or ''):
+        # the compiler's own, documented resource diagnostic for non-iterative unfolding at a large depth
+        ctx.count('discarded_compiler_recursion_limit')
+        continue
       ctx.violation(None, 'recursive program failed for %s (%s, depth %s): %s %s' % (p, style, depth, o.exc_type, (o.message or '')[:300]), wit)
       ctx.count('mismatch')
       continue
